@@ -82,20 +82,21 @@ Qed.
 Section P.
   Variables (rmp lws lmp : N).
   Variable hook : list hop.
+  Variable radj : option N.
   Hypothesis Hrmp : 0 < rmp.
   Notation write := (write rmp).
   Notation write_ext := (write_ext rmp).
   Notation write_ext_all := (write_ext_all rmp).
   Notation add_window := (add_window true hook rmp).
   Notation run_hook := (run_hook hook rmp).
-  Notation recv_data := (recv_data lws lmp).
+  Notation recv_data := (recv_data radj lws lmp).
   Notation recv_adjust := (recv_adjust true hook rmp).
-  Notation step := (step true hook rmp lws lmp).
-  Notation run := (run true hook rmp lws lmp).
+  Notation step := (step true hook radj rmp lws lmp).
+  Notation run := (run true hook radj rmp lws lmp).
   Notation wdata_at := (wdata_at hook).
   Notation xdata_at := (xdata_at hook).
-  Notation hwritten := (hwritten true hook rmp lws lmp).
-  Notation hxwritten := (hxwritten true hook rmp lws lmp).
+  Notation hwritten := (hwritten true hook radj rmp lws lmp).
+  Notation hxwritten := (hxwritten true hook radj rmp lws lmp).
 
   (** ---------- the effect every send-side routine has, whatever the state ---------- *)
   Definition lv (s : st) : Prop := live s = false -> lclosed s = true /\ rclosed s = true.
@@ -696,14 +697,14 @@ Section P.
     destruct (Hc d) as (N1 & Q1 & R1 & A1 & C1).
     assert (lws / 2 <= lws) as Hhalf by (apply N.div_le_upper_bound; lia).
     destruct (N.ltb_spec (slw - len d) (lws / 2)) as [H3|H3]; cbn.
-    - destruct slc; cbn; split; cbn; auto; try (unfold cl; cbn; intuition congruence); rewrite <- ?app_assoc; give_es;
+    - destruct radj as [ra|], slc; cbn; split; cbn; auto; try (unfold cl; cbn; intuition congruence); rewrite <- ?app_assoc; give_es;
         (repeat split; intros; try discriminate; repeat constructor; auto;
          cbn [recvd adjusted recvd_ev adj_ev closes filter is_close length app b2n]; rewrite ?C1, ?R1, ?A1;
-         cbn [length]; try lia).
-    - destruct slc; cbn; split; cbn; auto; try (unfold cl; cbn; intuition congruence); rewrite <- ?app_assoc; give_es;
+         cbn [recvd adjusted recvd_ev adj_ev closes filter is_close length app b2n]; try lia).
+    - destruct radj as [ra|], slc; cbn; split; cbn; auto; try (unfold cl; cbn; intuition congruence); rewrite <- ?app_assoc; give_es;
         (repeat split; intros; try discriminate; repeat constructor; auto;
          cbn [recvd adjusted recvd_ev adj_ev closes filter is_close length app b2n]; rewrite ?C1, ?R1, ?A1;
-         cbn [length]; try lia).
+         cbn [recvd adjusted recvd_ev adj_ev closes filter is_close length app b2n]; try lia).
   Qed.
 
   Lemma reff_recv_close s : reff s (recv_close s) /\ (lclosed s = false -> flush (recv_close s)).
@@ -885,15 +886,17 @@ Section P.
 
   Lemma recv_accepts s cb d : live s = true -> len d <= lwl s -> len d <= lmp ->
     lclosed (recv_data s cb d) = lclosed s /\
-    exists pre, log (recv_data s cb d) = log s ++ pre ++ [cb d] /\ pkts pre = pre /\ closes pre = 0%nat /\
-                (pre = [] \/ exists n, pre = [PAdjust n]).
+    exists pre post, log (recv_data s cb d) = log s ++ pre ++ [cb d] ++ post /\
+                pkts pre = pre /\ closes pre = 0%nat /\ (pre = [] \/ exists n, pre = [PAdjust n]) /\
+                closes post = 0%nat /\ (post = [] \/ exists n, post = [PAdjust n]).
   Proof.
     intros Hl H1 H2. unfold Model.recv_data, adjust_window. rewrite Hl. cbn [negb].
     destruct (N.ltb_spec (lwl s) (len d)); [lia|]. destruct (N.ltb_spec lmp (len d)); [lia|]. cbn [orb].
-    dest_st s. cbn. destruct (_ <? _); [destruct slc|]; cbn; (split; [reflexivity|]).
-    - exists []. auto.
-    - exists [PAdjust (lws - (slw - len d))]. rewrite <- app_assoc. repeat split; eauto.
-    - exists []. auto.
+    dest_st s. cbn. destruct radj as [ra|], (_ <? _), slc; cbn; (split; [reflexivity|]); rewrite <- ?app_assoc.
+    all: try (exists [], []; repeat split; eauto; fail).
+    all: try (eexists [PAdjust _], []; repeat split; eauto; fail).
+    all: try (eexists [], [PAdjust _]; repeat split; eauto; fail).
+    all: try (eexists [PAdjust _], [PAdjust _]; repeat split; eauto; fail).
   Qed.
 
   Lemma step_flush s o : lv s -> lclosed s = false -> overruns lmp s o = false -> flush (step s o).
@@ -973,8 +976,9 @@ Section P.
     (live s = true -> len d <= lmp -> recvd (log s) + len d <= lws + adjusted (log s) ->
      forall cb, 
      lclosed (recv_data s cb d) = lclosed s /\
-     exists pre, log (recv_data s cb d) = log s ++ pre ++ [cb d] /\ pkts pre = pre /\ closes pre = 0%nat /\
-                 (pre = [] \/ exists n, pre = [PAdjust n])).
+     exists pre post, log (recv_data s cb d) = log s ++ pre ++ [cb d] ++ post /\
+                 pkts pre = pre /\ closes pre = 0%nat /\ (pre = [] \/ exists n, pre = [PAdjust n]) /\
+                 closes post = 0%nat /\ (post = [] \/ exists n, post = [PAdjust n])).
   Proof.
     intros s. pose proof (i_rw _ _ _ _ _ (Inv_reach rw ops)) as E. fold s in E. split; [exact E|].
     intros Hl H1 H2 cb. apply recv_accepts; auto. lia.
